@@ -1,0 +1,64 @@
+//go:build verif
+
+// Contracts for the error adapter (server side Error, client side ClientError), read by /verif/govc.
+package errors
+
+import (
+	"github.com/glebziz/fs_db"
+)
+
+// classOf: which operational sentinel an error is reported as: the first one it matches, in the
+// order of the wire enumeration (store.ErrorCode): 0 = none of them (reported as ErrUnknown).
+//@ pure func classOf(e error) int =
+//@     ite(is(e, fs_db.ErrNoFreeSpace), store.ErrorCode_ErrNoFreeSpace, ite(is(e, fs_db.ErrNotFound), store.ErrorCode_ErrNotFound,
+//@     ite(is(e, fs_db.ErrEmptyKey), store.ErrorCode_ErrEmptyKey, ite(is(e, fs_db.ErrHeaderNotFound), store.ErrorCode_ErrHeaderNotFound,
+//@     ite(is(e, fs_db.ErrTxNotFound), store.ErrorCode_ErrTxNotFound, ite(is(e, fs_db.ErrTxAlreadyExists), store.ErrorCode_ErrTxAlreadyExists,
+//@     ite(is(e, fs_db.ErrTxSerialization), store.ErrorCode_ErrTxSerialization, store.ErrorCode_ErrUnknown)))))))
+//@ pure func sentinelOf(c int) error =
+//@     ite(c == store.ErrorCode_ErrNoFreeSpace, fs_db.ErrNoFreeSpace, ite(c == store.ErrorCode_ErrNotFound, fs_db.ErrNotFound,
+//@     ite(c == store.ErrorCode_ErrEmptyKey, fs_db.ErrEmptyKey, ite(c == store.ErrorCode_ErrHeaderNotFound, fs_db.ErrHeaderNotFound,
+//@     ite(c == store.ErrorCode_ErrTxNotFound, fs_db.ErrTxNotFound, ite(c == store.ErrorCode_ErrTxAlreadyExists, fs_db.ErrTxAlreadyExists,
+//@     ite(c == store.ErrorCode_ErrTxSerialization, fs_db.ErrTxSerialization, fs_db.ErrUnknown)))))))
+//@ pure func wireCode(c int) bool =
+//@     c == store.ErrorCode_ErrUnknown || c == store.ErrorCode_ErrNoFreeSpace || c == store.ErrorCode_ErrNotFound || c == store.ErrorCode_ErrEmptyKey ||
+//@     c == store.ErrorCode_ErrHeaderNotFound || c == store.ErrorCode_ErrTxNotFound || c == store.ErrorCode_ErrTxAlreadyExists || c == store.ErrorCode_ErrTxSerialization
+
+//@ func errorToPbError
+//@   requires nn:   err != nil
+//@   ensures  code: result != nil && result.Code == classOf(err)
+
+//@ func Error
+//@   requires nn:     err != nil
+//@   ensures  status: result != nil && statusOf(result) != nil
+//@   ensures  detail: typeis(stDetail(statusOf(result)), *store.Error) && unbox(stDetail(statusOf(result)), *store.Error) != nil &&
+//@                    unbox(stDetail(statusOf(result)), *store.Error).Code == classOf(err)
+
+//@ func detailsToError
+//@   ensures none:  len(d) == 0 ==> result == nil
+//@   ensures first: len(d) == 1 && typeis(d[0], *store.Error) && unbox(d[0], *store.Error) != nil &&
+//@                     wireCode(unbox(d[0], *store.Error).Code) ==>
+//@                     result != nil && is(result, sentinelOf(unbox(d[0], *store.Error).Code)) &&
+//@                     forall t error :: is(result, t) ==> t == result || t == sentinelOf(unbox(d[0], *store.Error).Code)
+//@ loop detailsToError#1
+//@   invariant idx: -1 <= rangeindex && rangeindex < len(d) &&
+//@                  (rangeindex >= 0 ==> !(typeis(d[0], *store.Error) && unbox(d[0], *store.Error) != nil &&
+//@                                        wireCode(unbox(d[0], *store.Error).Code)))
+//@   decreases len(d) - rangeindex
+
+//@ func ClientError
+//@   ensures class: err != nil && statusOf(err) != nil && typeis(stDetail(statusOf(err)), *store.Error) && unbox(stDetail(statusOf(err)), *store.Error) != nil &&
+//@                     wireCode(unbox(stDetail(statusOf(err)), *store.Error).Code) ==>
+//@                     result != nil && is(result, sentinelOf(unbox(stDetail(statusOf(err)), *store.Error).Code)) &&
+//@                     forall t error :: is(result, t) ==> t == result || t == sentinelOf(unbox(stDetail(statusOf(err)), *store.Error).Code)
+
+// Round trip (lemma over the two contracts): whatever error the server reports, the client
+// rebuilds an error of the same class and of no other operational class.
+//@ func lemmaErrorClassPreserved
+//@   requires nn:    e != nil
+//@   ensures  class: result != nil && is(result, sentinelOf(classOf(e)))
+//@   ensures  only:  forall t error :: is(result, t) ==> t == result || t == sentinelOf(classOf(e))
+func lemmaErrorClassPreserved(e error) error {
+	return ClientError(Error(e))
+}
+
+var _ = fs_db.ErrUnknown
